@@ -74,7 +74,7 @@ class Ty:
             return (z3.StringSort(),)
         if k == "opaque":
             return (OpaqueSort,)
-        if k in ("none", "empty"):
+        if k in ("none", "empty", "strlit"):
             return ()
         if k == "enum":
             return (enum_info(self.name)[0],)
